@@ -160,6 +160,20 @@ Proof.
   exists h_define_in_ctx. split; apply differs_neq; [exact (proj1 define_in_ctx_differs)|].
   destruct single_switches as (H3 & H7 & H100 & H102 & H9 & H101 & H103). exact H103.
 Qed.
+(** F104: [define_conservative] needs its stability hypothesis: a definition under FRESH keys
+    ([am = 5 second]) gives the old spelling [dam] the earlier reading deci+am; the memo keyed by
+    the spelling is stale — with every switch on or off *)
+Theorem C13_define_shadowing_refuted :
+  fresh_def default_reg am ∧
+  stableb default_reg (add_unit_def default_reg am) {[ "dam" := tt ]} = false ∧
+  ∃ ops, outs faithful demo_tk (init demo_decl) ops ≠ pure_outs demo_tk demo_decl ops
+         ∧ outs repaired demo_tk (init demo_decl) ops ≠ pure_outs demo_tk demo_decl ops.
+Proof.
+  destruct shadow_differs as (H1 & H2 & H3).
+  split; [exact am_fresh|]. split; [exact H3|].
+  exists h_shadow. split; apply differs_neq; assumption.
+Qed.
+
 (** all seven witness histories are answered like a fresh registry once the deviations are off *)
 Theorem C13_witnesses_repaired :
   let ok ops := answers_eqb (outs repaired demo_tk (init demo_decl) ops) (pure_outs demo_tk demo_decl ops) = true in
